@@ -179,6 +179,8 @@ type unmarshalEntry struct {
 type hasher struct {
 	// IDSize of the respective Shwap container
 	IDSize int // to be set during hasher registration
+	// MhCode is the multihash code the hasher is registered for
+	MhCode uint64 // to be set during hasher registration
 
 	sum []byte
 }
@@ -204,6 +206,16 @@ func (h *hasher) write(data []byte) error {
 	id, err := extractFromCID(cid)
 	if err != nil {
 		return err
+	}
+
+	// ensure the data belongs to the Block type this hasher is registered for.
+	// Bitswap picks the hasher by the multihash code of the prefix sent along with the data,
+	// and that prefix is chosen by the sender. Without the check, a valid Block of one type could
+	// be sent under the prefix of another type and, as the resulting sum is the ID (cut to the
+	// requested length), be accepted as the Block for an ID of that other type sharing the bytes,
+	// e.g. a Sample as its Row or as the Range with from/to equal to its coordinates.
+	if mhType := cid.Prefix().MhType; h.MhCode != 0 && mhType != h.MhCode {
+		return fmt.Errorf("multihash code %d of %s doesn't match the hasher's %d", mhType, cid.String(), h.MhCode)
 	}
 
 	// get registered UnmarshalFn and use it to check data validity and
